@@ -45,6 +45,7 @@ struct prog {
     int init[MAXT];                   /* references handed to the thread before the start */
     int nops[MAXT];
     uint8_t ops[MAXT][MAXOPS];
+    bool reent;                       /* the destructor itself takes and drops a reference (as a DEAD handler using the dying pipe does) */
 };
 
 static struct {
@@ -75,6 +76,12 @@ static void destructor(struct urefcount *rc)
         fail_inside("C09/destructor/twice", "the destructor ran %d times", cx.destroyed);
     else if (cx.outstanding != 0)
         fail_inside("C09/destructor/early", "the destructor ran while %d reference(s) were still outstanding", cx.outstanding);
+    /* code run from a destructor (an event handler given the dying object) may take and drop a reference on it; urefcount_release
+     * guards against that ("avoid triggering it twice"): the destructor must not be entered again */
+    if (cx.p.reent && cx.destroyed == 1) {
+        urefcount_use(rc);
+        urefcount_release(rc);
+    }
 }
 
 /* dated invocation of an operation = the step of its first shared access */
@@ -142,7 +149,7 @@ static void render_case(struct vp_report *rep, const struct vs_config *cfg)
 {
     const struct prog *p = &cx.p;
     char pb[32];
-    vp_render(rep, "C09 urefcount threads=%d\n", p->nthreads);
+    vp_render(rep, "C09 urefcount threads=%d%s\n", p->nthreads, p->reent ? " (the destructor takes and drops a reference itself)" : "");
     for (int t = 0; t < p->nthreads; t++) {
         vp_render(rep, "  T%d: starts with %d reference(s);", t, p->init[t]);
         for (int j = 0; j < p->nops[t]; j++) vp_render(rep, " %s", p->ops[t][j] == OP_USE ? "use" : "release");
@@ -191,7 +198,7 @@ static int run_case(const struct prog *prog, struct vs_config *cfg, struct vp_re
     vs_end();
 
     uint64_t h = VP_HASH_INIT;
-    h = vp_hash_mix(h, (uint64_t)p->nthreads);
+    h = vp_hash_mix(h, (uint64_t)p->nthreads | (p->reent ? 16 : 0));
     for (int t = 0; t < p->nthreads; t++) {
         h = vp_hash_mix(h, (uint64_t)p->init[t] << 8 | (uint64_t)p->nops[t]);
         for (int j = 0; j < p->nops[t]; j++) h = vp_hash_mix(h, p->ops[t][j]);
@@ -231,7 +238,9 @@ static int run_case(const struct prog *prog, struct vs_config *cfg, struct vp_re
 static void decode_prog(struct tape *t, struct prog *p)
 {
     memset(p, 0, sizeof(*p));
-    p->nthreads = 2 + tp_u8(t) % 2;
+    uint8_t b0 = tp_u8(t);
+    p->nthreads = 2 + b0 % 2;
+    p->reent = (b0 >> 1) & 1;
     for (int i = 0; i < p->nthreads; i++) {
         uint8_t b = tp_u8(t);
         p->init[i] = i == 0 ? 1 + b % 2 : (b % 4 == 3 ? 0 : 1 + b % 4 / 2);   /* thread 0: 1-2; others 1,1,2,0 */
